@@ -6,6 +6,10 @@ Quantizer spec:
   {"t":"relu","bits":b,"int":i}
   {"t":"po2","bits":b,"mv":None|float}      quantized_po2(b, max_value=mv)
   {"t":"bin"}  binary(alpha=1)      {"t":"ter"}  ternary(alpha=1)
+  {"t":"sbin"} stochastic_binary(alpha=1)   {"t":"ster"} stochastic_ternary(alpha=1)
+    (the "stochastic" classes are deterministic outside the training phase:
+    sign(x) / the ternary threshold rule; optional "temp", "real_sigmoid"
+    constructor options only shape the training-time probabilities)
 Layer spec ("k" = kind): dense / conv1d / conv2d / dw2d (+ "kq","bq","bias"),
   act ("q"), flatten; C19 adds keras twins and pooling / merge kinds.
 
@@ -44,7 +48,20 @@ def build_q(spec):
     return qkeras.binary(alpha=1)
   if t == "ter":
     return qkeras.ternary(alpha=1)
+  if t == "sbin":
+    return qkeras.stochastic_binary(
+        alpha=1, temperature=spec.get("temp", 6.0),
+        use_real_sigmoid=bool(spec.get("real_sigmoid", 1)))
+  if t == "ster":
+    return qkeras.stochastic_ternary(
+        alpha=1, temperature=spec.get("temp", 8.0),
+        use_real_sigmoid=bool(spec.get("real_sigmoid", 1)))
   raise ValueError(spec)
+
+
+BIN_KIND = ("bin", "sbin")         # values {-1, +1}
+TER_KIND = ("ter", "ster")         # values {-1, 0, +1}
+BIN_TER = BIN_KIND + TER_KIND
 
 
 def is_auto(spec):
@@ -76,7 +93,7 @@ def fixed_lattice(spec):
   lattice: keep_negative -> step 2^(int-bits+1), codes
   [-2^(bits-1)+symmetric, 2^(bits-1)-1]; unsigned -> step 2^(int-bits),
   codes [0, 2^bits-1]."""
-  if spec["t"] in ("bin", "ter"):
+  if spec["t"] in BIN_TER:
     return 1.0, -1, 1
   b, i = spec["bits"], spec["int"]
   if spec["t"] == "relu" or not spec.get("kn", 1):
@@ -154,12 +171,12 @@ def lattice_values(spec, shape, mode, rs):
     if t == "rpo2":
       s = np.ones(n)                          # unsigned: positive powers of two
     v = s * np.ldexp(1.0, e.astype(np.int64))
-  elif t == "bin":
+  elif t in BIN_KIND:
     if mode in ("random", "signed_max", "lsb"):
       v = np.where(rs.randint(0, 2, size=n) == 1, 1.0, -1.0)
     else:
       v = np.full(n, 1.0 if mode == "max" else -1.0)
-  elif t == "ter":
+  elif t in TER_KIND:
     if mode == "random":
       v = rs.randint(-1, 2, size=n).astype(np.float64)
     elif mode in ("signed_max", "lsb"):
@@ -277,14 +294,17 @@ def _build_stack(case):
   return model, shapes
 
 
-def set_stack_weights(model, case, shapes, reseed=0):
-  """Stored weights = on-lattice values (auto_po2: raw floats)."""
+def set_stack_weights(model, case, shapes, reseed=0, shift=0):
+  """Stored weights = on-lattice values (auto_po2: raw floats, multiplied by
+  2^shift: the kernel scale chosen by auto_po2 moves by that factor)."""
   for i, l in enumerate(case["layers"]):
     if l["k"] not in COMPUTE:
       continue
     rs = np.random.RandomState(l["wseed"] + reseed)
     ks = kernel_shape(l, shapes[i])
     w = [lattice_values(l["kq"], ks, l["wmode"], rs)]
+    if shift and is_auto(l["kq"]):
+      w[0] = np.ldexp(w[0], int(shift)).astype(F32)
     if l["bias"]:
       nb = ks[-1] if l["k"] != "dw2d" else ks[-2] * ks[-1]
       w.append(lattice_values(l["bq"], (nb,), l["wmode"], rs))
@@ -322,6 +342,7 @@ def st_kernel_q(st, wide=False):
                 st.sampled_from([None, None, 2.0, 4.0, 1.0, 0.5, 3.0, 6.0, 1.5])),
       st.builds(lambda b: {"t": "po2", "bits": b, "mv": None}, st.integers(3, 5)),
       st.just({"t": "bin"}), st.just({"t": "ter"}),
+      st_stochastic_q(st),
       # unsigned kernels
       st.one_of(
           st.builds(lambda b, i: {"t": "qb", "bits": b, "int": min(i, b), "sym": 0,
@@ -331,6 +352,17 @@ def st_kernel_q(st, wide=False):
                     st.integers(2, 5), st.integers(0, 2)),
           st.builds(lambda b: {"t": "rpo2", "bits": b, "mv": None},
                     st.integers(2, 3))))
+
+
+def st_stochastic_q(st):
+  """stochastic_binary / stochastic_ternary (qtools: StochasticBinary /
+  StochasticTernary, the same value sets as binary / ternary) over their
+  constructor options."""
+  return st.builds(
+      lambda t, temp, rs: dict({"t": t}, **({} if temp is None else
+                                            {"temp": temp, "real_sigmoid": rs})),
+      st.sampled_from(["sbin", "ster"]), st.sampled_from([None, None, 1.0, 8.0]),
+      st.integers(0, 1))
 
 
 def st_bias_q(st):
@@ -353,7 +385,10 @@ def st_act_q(st):
       st.builds(lambda b, i: {"t": "qb", "bits": b, "int": min(i, b - 1),
                               "sym": 1, "kn": 1, "alpha": None},
                 st.integers(2, 6), st.integers(0, 2)),
-      st.just({"t": "bin"}), st.just({"t": "ter"}))
+      st.just({"t": "bin"}), st.just({"t": "ter"}),
+      # stochastic_binary / stochastic_ternary as activations (deterministic
+      # outside the training phase)
+      st_stochastic_q(st))
 
 
 POW2_FANIN = [1, 2, 4, 8, 16]
